@@ -15,6 +15,7 @@
 (*   val    : name -> string    its value                                  *)
 (*   isbool : name -> BOOLEAN                                              *)
 (*   isstr  : name -> BOOLEAN                                              *)
+(*   ishex  : name -> BOOLEAN                                              *)
 (*   rhs    : name -> string    right-hand side of its auto.conf line      *)
 (*   aliases: Names -> sequence of deprecated alias names (rename table)    *)
 (*   vv     : Names -> string   build-visible value ("absent" if the name  *)
@@ -41,6 +42,7 @@ VARIABLES cfg,        \* index into Cfgs
           opn,        \* number of mutating operations performed in this run
           wrote,      \* this run opened a file for writing
           done,       \* ghost: build-visible values at the last completed sync
+          cfgDone,    \* ghost: the configuration (index) of the last completed sync, 0 before the first
           touched,    \* ghost: names touched since `done` was recorded
           touchedRun, \* ghost: names touched in the current run
           clean,      \* ghost: no crash since the last completed sync
@@ -49,7 +51,7 @@ VARIABLES cfg,        \* index into Cfgs
           hist        \* history of commands (for replay); hidden by the VIEW
 
 sysvars == <<cfg, dir, ac, tmp, pc, tq, wq, opn, wrote>>
-ghosts  == <<done, touched, touchedRun, clean, synced>>
+ghosts  == <<done, cfgDone, touched, touchedRun, clean, synced>>
 bounds  == <<nchg, ncrash, nsync>>
 vars    == <<sysvars, ghosts, bounds, hist>>
 View    == <<sysvars, ghosts, bounds>>
@@ -68,7 +70,11 @@ StillKnown(c) == IF FlagVanished THEN Defined(c) ELSE c.known
 \* _load_old_vals: the last parsable line for a known name wins.
 \* A string option's line must be a quoted literal, otherwise the line is skipped.
 Parses(c, ln) == ln[1] \in Defined(c) /\ c.isstr[ln[1]] => ln[2] \in DOMAIN Unq
-ValueOf(c, ln) == IF ln[1] \in Defined(c) /\ c.isstr[ln[1]] THEN Unq[ln[2]] ELSE ln[2]
+\* A hex option counts by the number the header shows (ff and 0xff are both written 0xff there): Unq also maps the
+\* spellings of hex values to that form, and c.val of a hex option is given in it.
+ValueOf(c, ln) == IF ln[1] \in Defined(c) /\ c.isstr[ln[1]] THEN Unq[ln[2]]
+                  ELSE IF ln[1] \in Defined(c) /\ c.ishex[ln[1]] /\ ln[2] \in DOMAIN Unq THEN Unq[ln[2]]
+                  ELSE ln[2]
 OldOf(c, lines) ==
   [s \in c.known |->
      LET idx == {i \in 1..Len(lines) : lines[i][1] = s /\ Parses(c, lines[i])}
@@ -110,7 +116,7 @@ Init ==
   /\ cfg \in 1..Len(Cfgs)
   /\ dir = FALSE /\ ac = NoFile /\ tmp = NoFile
   /\ pc = "idle" /\ tq = <<>> /\ wq = <<>> /\ opn = 0 /\ wrote = FALSE
-  /\ done = [n \in Names |-> Absent] /\ touched = {} /\ touchedRun = {} /\ clean = TRUE /\ synced = FALSE
+  /\ done = [n \in Names |-> Absent] /\ cfgDone = 0 /\ touched = {} /\ touchedRun = {} /\ clean = TRUE /\ synced = FALSE
   /\ nchg = 0 /\ ncrash = 0 /\ nsync = 0
   /\ hist = <<<<"cfg", cfg, "">>>>
 
@@ -125,7 +131,7 @@ StartSync ==
   /\ pc' = IF dir THEN "load" ELSE "mkdir"
   /\ opn' = 0 /\ wrote' = FALSE /\ touchedRun' = {} /\ nsync' = nsync + 1
   /\ tq' = <<>> /\ wq' = <<>>
-  /\ UNCHANGED <<cfg, dir, ac, tmp, done, touched, clean, synced, nchg, ncrash, hist>>
+  /\ UNCHANGED <<cfg, dir, ac, tmp, done, cfgDone, touched, clean, synced, nchg, ncrash, hist>>
 
 Mkdir ==
   /\ pc = "mkdir" /\ dir' = TRUE /\ opn' = opn + 1 /\ pc' = "load"
@@ -139,7 +145,7 @@ Touch ==
   /\ pc = "touch" /\ tq # <<>>
   /\ touched' = touched \cup {Head(tq)} /\ touchedRun' = touchedRun \cup {Head(tq)}
   /\ tq' = Tail(tq) /\ opn' = opn + 1
-  /\ UNCHANGED <<cfg, dir, ac, tmp, pc, wq, wrote, done, clean, synced, bounds, hist>>
+  /\ UNCHANGED <<cfg, dir, ac, tmp, pc, wq, wrote, done, cfgDone, clean, synced, bounds, hist>>
 
 Compare ==  \* _write_if_changed / _contents_eq
   /\ pc = "touch" /\ tq = <<>>
@@ -168,7 +174,7 @@ Replace ==
 
 Finish ==
   /\ pc = "finish" /\ pc' = "idle"
-  /\ done' = C.vv /\ touched' = {} /\ clean' = TRUE /\ synced' = TRUE
+  /\ done' = C.vv /\ cfgDone' = cfg /\ touched' = {} /\ clean' = TRUE /\ synced' = TRUE
   /\ hist' = Append(hist, <<"sync", -1, "">>)
   /\ UNCHANGED <<cfg, dir, ac, tmp, tq, wq, opn, wrote, touchedRun, bounds>>
 
@@ -186,7 +192,7 @@ Crash ==
              /\ IF AtomicWrite THEN tmp' = [tmp EXCEPT !.lines = Append(@, <<Head(wq)[1], t>>)] /\ ac' = ac
                                ELSE ac' = [ac EXCEPT !.lines = Append(@, <<Head(wq)[1], t>>)] /\ tmp' = tmp
              /\ hist' = Append(hist, <<"sync", opn, t>>)
-  /\ UNCHANGED <<cfg, dir, tq, wq, opn, wrote, done, touched, touchedRun, synced, nchg, nsync>>
+  /\ UNCHANGED <<cfg, dir, tq, wq, opn, wrote, done, cfgDone, touched, touchedRun, synced, nchg, nsync>>
 
 Next == ChangeCfg \/ StartSync \/ Mkdir \/ Load \/ Touch \/ Compare \/ OpenW
         \/ WriteLine \/ WriteDone \/ Replace \/ Finish \/ Crash
@@ -202,8 +208,10 @@ NoLostTrigger ==
 NoSpurious ==
   (pc = "finish" /\ clean) => \A n \in Names : C.vv[n] = done[n] => n \notin touchedRun
 
+\* (the record itself is left alone when the very same configuration is synced again; a configuration that only
+\* spells a hex value differently shows the same values but has another record)
 Idempotent ==
-  (pc = "finish" /\ clean /\ synced /\ \A n \in Names : C.vv[n] = done[n]) => (touchedRun = {} /\ ~wrote)
+  (pc = "finish" /\ clean /\ synced /\ \A n \in Names : C.vv[n] = done[n]) => (touchedRun = {} /\ (cfg = cfgDone => ~wrote))
 
 \* a completed sync leaves auto.conf describing the current configuration
 Recorded == pc = "finish" => SameContent(C, ac)
